@@ -174,7 +174,11 @@ class MapfileTransformer(Transformer):
             # allow for multipart features in a nested list
             existing_points = composite_dict[key_name]
 
-            if calculate_depth(existing_points) == 2:
+            # a single part is a list of pairs - only check the first pair as calculating
+            # the depth of all the points each time is slow for features with many parts
+            if existing_points and not isinstance(
+                existing_points[0][0], (tuple, list)
+            ):
                 composite_dict[key_name] = [existing_points]
 
             if key_name not in composite_dict:
